@@ -23,8 +23,9 @@ pub enum Site {
 
 #[derive(Debug, Clone, Copy)]
 pub enum Event {
-    /// About to perform an atomic operation / fence / buffer access (scheduling point).
-    Pre(Site),
+    /// About to perform an atomic operation / fence / buffer access (scheduling point); the
+    /// address is the atomic's / the first byte accessed (0 for a fence).
+    Pre(Site, usize),
     FetchAdd { addr: usize, val: usize, order: Ordering, prev: usize },
     FetchSub { addr: usize, val: usize, order: Ordering, prev: usize },
     Load { addr: usize, order: Ordering, val: usize },
@@ -85,24 +86,24 @@ pub(crate) unsafe fn dealloc(ptr: *mut u8, layout: Layout) {
 }
 
 pub(crate) fn note_read(ptr: *const u8, len: usize) {
-    emit(Event::Pre(Site::Access));
+    emit(Event::Pre(Site::Access, ptr as usize));
     emit(Event::Read { ptr: ptr as usize, len });
 }
 
 pub(crate) fn note_write(ptr: *const u8, len: usize) {
-    emit(Event::Pre(Site::Access));
+    emit(Event::Pre(Site::Access, ptr as usize));
     emit(Event::Write { ptr: ptr as usize, len });
 }
 
 /// A copy of `len` bytes from `src` into a freshly allocated (still private) `dst`.
 pub(crate) fn note_copy(src: *const u8, dst: *const u8, len: usize) {
-    emit(Event::Pre(Site::Access));
+    emit(Event::Pre(Site::Access, src as usize));
     emit(Event::Read { ptr: src as usize, len });
     emit(Event::Write { ptr: dst as usize, len });
 }
 
 pub(crate) fn fence(order: Ordering) {
-    emit(Event::Pre(Site::Fence));
+    emit(Event::Pre(Site::Fence, 0));
     atomic::fence(order);
     emit(Event::Fence { order });
 }
@@ -116,21 +117,21 @@ impl AtomicUsize {
     }
 
     pub(crate) fn fetch_add(&self, val: usize, order: Ordering) -> usize {
-        emit(Event::Pre(Site::Atomic));
+        emit(Event::Pre(Site::Atomic, self as *const _ as usize));
         let prev = self.0.fetch_add(val, order);
         emit(Event::FetchAdd { addr: self as *const _ as usize, val, order, prev });
         prev
     }
 
     pub(crate) fn fetch_sub(&self, val: usize, order: Ordering) -> usize {
-        emit(Event::Pre(Site::Atomic));
+        emit(Event::Pre(Site::Atomic, self as *const _ as usize));
         let prev = self.0.fetch_sub(val, order);
         emit(Event::FetchSub { addr: self as *const _ as usize, val, order, prev });
         prev
     }
 
     pub(crate) fn load(&self, order: Ordering) -> usize {
-        emit(Event::Pre(Site::Atomic));
+        emit(Event::Pre(Site::Atomic, self as *const _ as usize));
         let val = self.0.load(order);
         emit(Event::Load { addr: self as *const _ as usize, order, val });
         val
